@@ -186,8 +186,16 @@ constexpr void url::copy_scheme(const ada::url& u) {
 }
 
 [[nodiscard]] ada_really_inline std::string url::get_href() const {
+#ifdef ADA_URL_ADA_VERIF
+  if (ada_verif_buggify(111)) {
+    goto ada_verif_general_href;  // decline the special-URL serializer
+  }
+#endif
   if (is_special() && host.has_value() && username.empty() &&
       password.empty() && !port.has_value()) [[likely]] {
+#ifdef ADA_URL_ADA_VERIF
+    ada_verif_probe(211);
+#endif
     const std::string_view scheme = ada::scheme::details::is_special_list[type];
     const size_t host_size = host->size();
     const size_t path_size = path.size();
@@ -222,6 +230,9 @@ constexpr void url::copy_scheme(const ada::url& u) {
     }
     return output;
   }
+#ifdef ADA_URL_ADA_VERIF
+ada_verif_general_href:
+#endif
 
   std::string output;
   output.reserve(get_href_size());
